@@ -8,7 +8,7 @@ EXTENDS Optimizer, Json, IOUtils
 
 Scen == ndJsonDeserialize(IOEnv.MC_SCEN)
 MAXIN == atoi(IOEnv.MC_MAXIN)
-Bodies == [s \in 1..Len(Scen) |-> BodyMap(Core(Scen[s].grammar))]
+Bodies == [s \in 1..Len(Scen) |-> BodyMap(ShapeG(Core(Scen[s].grammar)))]
 InAlpha(s) == UNION {{Scen[s].inputs[k].r[j] : j \in 1..Len(Scen[s].inputs[k].r)} : k \in 1..Len(Scen[s].inputs)}
 Opts == [s \in 1..Len(Scen) |-> OptGrammar(Bodies[s], InAlpha(s))]
 
